@@ -77,6 +77,8 @@ def main(tier):
             m = re.search(r'Java not implemented: ([A-Za-z: ]+)', tail)
             if m:
                 key = 'java-not-implemented=%s' % m.group(1).strip().replace(' ', '')
+            elif 'code too large' in ' '.join(j.lines) and j.status != 'ok':
+                key = 'javac=code-too-large,level=-Q%d' % q
             else:
                 key = 'case=%s@-Q%d' % (diffeng.case_id(fam, case), q)
             files, cmds = diffeng.replay_files(tc, fam, case, k, [('interp', ('-Q%d' % q,)), ('java', ('-Q%d' % q,))])
